@@ -29,6 +29,15 @@ theorem normalize_fixes_canonical (p : Bytes) (h : canonical p = true) : normali
   · decide +kernel
   · exact normalize_render c cs hg
 
+/-- **normalize_resolves_dots_and_slashes.**  For a request without a `..` piece, normalisation is
+exactly "drop the empty pieces (repeated/trailing slashes) and the `.` pieces": the components of
+the result are the remaining pieces, in order.  (With `..` the code glues the next piece onto the
+component before the removed one — `/a/b/../c` ↦ `/ac` — which `normalize_never_climbs` covers.) -/
+theorem normalize_resolves_dots_and_slashes (p : Bytes)
+    (h : ∀ c ∈ splitSlash (afterLead p), c ≠ [46, 46]) :
+    comps (normalize p) = (splitSlash (afterLead p)).filter (fun c => c != [] && c != [46]) :=
+  normalize_noUp p h
+
 /-- normalisation is idempotent -/
 theorem normalize_idempotent (p : Bytes) : normalize (normalize p) = normalize p :=
   normalize_fixes_canonical _ (normalize_never_climbs p)
@@ -375,6 +384,65 @@ theorem listing_skips_dotfiles_and_escapes (fs : Fs) (cfg : Config) (f url : Byt
     rcases h3 with e | e
     · rw [e]; exact escapedFor_escape_append r.name [] (by decide) (by decide) (by decide)
     · rw [e]; exact escapedFor_escape_append r.name [47] (by decide) (by decide) (by decide)
+
+/-- **listing_rows_exact.**  Exactly which entries are omitted: a name is shown iff it does not start
+with `.` and `stat(dir/name)` succeeded with the `S_IFDIR` or the `S_IFREG` bit (everything else —
+dot-files, dangling links, FIFOs, devices — is left out); order is `readdir` order. -/
+theorem listing_rows_exact (fs : Fs) (cfg : Config) (f url : Bytes) (path : Path) (rows : List Row)
+    (h : main fs cfg f = .listing url path rows) :
+    ∃ names, fs.readdir (cstr path) = some names ∧
+      rows.map (·.name) = names.filter (fun n => n.head? != some 46 &&
+        (fs.mode (cstr (path ++ [47] ++ n)) &&& 0o040000 != 0 || fs.mode (cstr (path ++ [47] ++ n)) &&& 0o100000 != 0)) := by
+  obtain ⟨_, _, names, hrd, hrows⟩ := main_listing fs cfg f url path rows h
+  refine ⟨names, hrd, ?_⟩
+  rw [hrows]
+  clear hrows hrd h
+  induction names with
+  | nil => rfl
+  | cons n ns ih =>
+    simp only [List.filterMap_cons, List.filter_cons]
+    have hrow : (listRow fs path n).map (·.name) =
+        if (n.head? != some 46 && (fs.mode (cstr (path ++ [47] ++ n)) &&& 0o040000 != 0 ||
+            fs.mode (cstr (path ++ [47] ++ n)) &&& 0o100000 != 0)) = true then some n else none := by
+      obtain ⟨hd, _, hr, _, _⟩ := gen_masks
+      have hj := gen_list.2.2.1
+      unfold listRow
+      rw [hj]
+      have hmd : Gen.listDirMask = 0o040000 := by decide
+      have hmr : Gen.listRegMask = 0o100000 := by decide
+      rw [hmd, hmr]
+      generalize fs.mode (cstr (path ++ [47] ++ n)) = m
+      by_cases hdot : isDotFile n = true
+      · have : n.head? = some 46 := (isDotFile_iff n).mp hdot
+        simp [hdot, this]
+      · have hne : ¬ n.head? = some 46 := fun e => hdot ((isDotFile_iff n).mpr e)
+        simp only [hdot, Bool.false_eq_true, if_false]
+        by_cases h0 : m = 0
+        · subst h0; simp
+        · simp only [h0, if_false]
+          by_cases h1 : m &&& 0o040000 != 0
+          · simp [h1, hne]
+          · by_cases h2 : m &&& 0o100000 != 0
+            · simp [h1, h2, hne]
+            · simp [h1, h2]
+    cases hl : listRow fs path n with
+    | none =>
+      rw [hl] at hrow
+      simp only [Option.map_none] at hrow
+      split at hrow
+      · simp at hrow
+      · rename_i hc
+        simp only [hc, Bool.false_eq_true, if_false]
+        exact ih
+    | some r =>
+      rw [hl] at hrow
+      simp only [Option.map_some] at hrow
+      split at hrow
+      · rename_i hc
+        simp only [hc, if_true, List.map_cons]
+        simp only [Option.some.injEq] at hrow
+        rw [hrow, ih]
+      · simp at hrow
 
 /-- **redirect_target.**  The only redirect the file server issues goes to the request path plus a
 trailing `/`, and only for a path that `check_in_document_root` accepted, whose `stat` has the
